@@ -38,7 +38,7 @@ PROPS = {
                         "C07_model_traces_ok is conditional on the caller of the fs layer syncing every written file before it acknowledges (wf_ops) -- the segment writer's sync path; the fst lines check that on the real traces",
                         "fault scenarios: ONE injected failure per run, at the fs layer's own syscalls on segment files, the directory and the steps of safeInitBoltDB (of bbolt's internal I/O only the first fdatasync of a run); errno EIO/ENOSPC/EMFILE (fallocate's ENOTSUP/EINTR fallback to ftruncate is not exercised); 0 < segment size <= MaxInt32",
                         "harness conventions of the fsf child that are part of the model: one handle per name, calls without a handle issue no syscall and fail, Delete first closes the handle of that name, Load first closes a db left open"],
-        "rule": "6 fixed scenarios (create+first commit, rotation, head/tail truncation deleting files, close/reopen/append, reset of the empty first segment, oversized batch/truncate to empty) + seeded random WAL workloads (segment sizes 512..8192, appends, waits, truncations, close/reopen) run on the production fs.FS + BoltMetaDB under strace; fso: seeded fs-layer call sequences (create/openwriter/write/sync/close/delete/meta init/commit) compared event by event with the model's fs_trace; fsfault: 18 fixed fault/retry scenarios (Delete failing in syncDir then retried, Create failing in the preallocation, Sync failing on the file / directory-open / directory fsync then retried, every step of the metadata db initialisation failing once then retried, invalid calls) + seeded fs-layer call sequences with retries and invalid calls, one strace-injected failure each (7 syscalls x EIO/ENOSPC/EMFILE, position drawn from the calls of a fault-free dry run), observed syscalls incl. the failed one and the ok/err result of every call compared with fs_xtrace; distinct = distinct input lines",
+        "rule": "6 fixed scenarios (create+first commit, rotation, head/tail truncation deleting files, close/reopen/append, reset of the empty first segment, oversized batch/truncate to empty) + seeded random WAL workloads (segment sizes 512..8192, appends, waits, truncations, close/reopen) run on the production fs.FS + BoltMetaDB under strace; fso: seeded fs-layer call sequences (create/openwriter/write/sync/close/delete/meta init/commit) compared event by event with the model's fs_trace; fsfault: 21 fixed fault/retry scenarios (Delete failing in syncDir then retried, Create failing in the preallocation, Sync failing on the file / directory-open / directory fsync then retried, every step of the metadata db initialisation failing once then retried, invalid calls) + seeded fs-layer call sequences with retries and invalid calls, one strace-injected failure each (7 syscalls x EIO/ENOSPC/EMFILE, position drawn from the calls of a fault-free dry run), observed syscalls incl. the failed one and the ok/err result of every call compared with fs_xtrace; distinct = distinct input lines",
     },
     "C20": {
         "streams": [S("seqapi", 150, 3000, vm=(5, 100), vm_maxlen=5000)],
